@@ -20,6 +20,8 @@ func c09Params(tier string) []*kvops.Params {
 		ev("expire", 0, 0, ""), ev("get", 0, 0, ""), ev("getput", 0, 0, ""), ev("incr", 0, 1, ""),
 		ev("tick", 0, 1499, ""), ev("tick", 0, 1, ""), ev("tick", 0, 500, ""), ev("tick", 0, 1000, ""),
 		ev("evict", 0, 0, ""),
+		// a lock is a key with an expiry too: its timeout and a later Lease must be honoured to the millisecond
+		ev("lock", 0, 1, ""), ev("lease", 0, 0, ""),
 	}
 	depth := 5
 	type cf struct {
